@@ -2,7 +2,7 @@
 (***************************************************************************)
 (* Use (A)+(B) of Negotiate.                                               *)
 (*                                                                         *)
-(* Mode "enum": EVERY history with NC commits, commit i having at most two *)
+(* Mode "enum": EVERY history with NMin..NC commits, commit i having <= 2  *)
 (* parents among 1..i-1 (multiple roots, criss-cross merges), as initial   *)
 (* states; the successors of a shape choose a clock (topological,          *)
 (* reversed, all equal) and the commits the refs point at; their           *)
@@ -11,13 +11,14 @@
 (* printed once.  A line carries, computed by the specification, what the  *)
 (* clauses of the contract need (ancestor sets, reachable-from-refs,       *)
 (* distance from the wants, the wants that must / may be refused, the work *)
-(* bound) and the negotiations to run on that history:                     *)
+(* bound; pw = PathWork only names the class of a work violation) and the  *)
+(* negotiations to run on that history:                                    *)
 (*   vs      the variants: sequences of rounds <<wants, haves, done>> -    *)
 (*           one round with every have set over the commits and one        *)
 (*           unknown hash, two rounds with the haves split between them,   *)
 (*           two rounds with the wants split between them,                 *)
 (*   ds      the depths to run each variant at,                            *)
-(*   dev     the <<variant, depth>> pairs on which the code as written     *)
+(*   wc, dev the <<variant, depth>> pairs on which the code as written     *)
 (*           (Part 3 of Negotiate) misses the table clause for some order  *)
 (*           of the wants (model-level counterexamples, never a verdict).  *)
 (* The invariant is use (A): the design of Negotiate meets the contract    *)
@@ -29,18 +30,19 @@
 (* "cross" kind adds one root below the ladder); wants and haves chosen    *)
 (* among tip, top pair, middle and bottom.  Exercises the work bound.      *)
 (*                                                                         *)
-(* Slice = <<k, m>>: only the lines whose content key is k modulo m (m = 1 *)
+(* SliceK, SliceM: only the lines whose content key is k modulo m (m = 1   *)
 (* keeps everything) - used to sample the 5-commit universe.               *)
 (***************************************************************************)
 EXTENDS Negotiate, TLC, Json
 
 CONSTANTS Mode,      \* "enum" | "ladder"
-          NC,        \* enum: number of commits
+          NMin, NC,  \* enum: histories of NMin..NC commits
           RefMode,   \* "all": every non-empty set of commits; "some": the heads, and each single commit
           MaxW,      \* largest want set
           Rich,      \* TRUE: two-round variants with have sets of up to two hashes per round
           Depths,    \* the depths, e.g. {0, 1, 2}
-          Slice,     \* <<k, m>>
+          SliceK, SliceM,   \* the slice: k of m
+          ClocksA,   \* the clocks under which use (A) is evaluated (and dev exported), e.g. {1, 2, 3}
           LMin, LMax, LStep   \* ladder: levels
 
 VARIABLE s
@@ -104,6 +106,9 @@ Variants(n, W) ==
 (* when the wants are refused in the first round nothing else happens      *)
 Trivial(W) == {<<Rd(SetToSeq(W), {}, TRUE)>>}
 
+(* the order of the haves only matters when a round has two or more       *)
+Orders(v) == IF \E i \in 1..Len(v) : Cardinality(v[i][2]) >= 2 THEN BOOLEAN ELSE {FALSE}
+
 Rev(q) == [i \in 1..Len(q) |-> q[Len(q) + 1 - i]]
 Input(g, full, refs, v, depth, desc) ==
   [g |-> g, full |-> full, refs |-> refs, depth |-> depth,
@@ -125,15 +130,26 @@ Key(x) ==
   LET n == Len(x.p) IN
     SumSeq([i \in 1..n |-> i * (3 * Len(x.p[i]) + SumSeq(x.p[i]))])
   + 7 * x.ck + 11 * SumSeq(SetToSeq(x.refs)) + 13 * SumSeq(SetToSeq(x.W)) + 17 * x.nf
-Kept(x) == Key(x) % Slice[2] = Slice[1]
+Kept(x) == Key(x) % SliceM = SliceK
 
 Refused(x) ==
   LET A == AncMap(G(x)) IN \E w \in x.W : w \notin Reach(A, x.refs) \/ w \notin Full(x)
 
-VariantsOf(x) == IF Refused(x) THEN Trivial(x.W) ELSE x.vs
+LadderVariants(x) ==
+  LET n   == Len(x.p)
+      mid == n \div 2
+      Ws  == SetToSeq(x.W)
+  IN {<<Rd(Ws, H, TRUE)>> : H \in {{}, {mid}, {mid, Unk(n)}}}
+     \cup {<<Rd(Ws, {mid}, FALSE), Rd(<<>>, {1}, TRUE)>>, <<Rd(Ws, {}, FALSE)>>}
+
+VariantsOf(x) == IF Refused(x) THEN Trivial(x.W)
+                 ELSE IF Mode = "ladder" THEN LadderVariants(x)
+                 ELSE Variants(Len(x.p), x.W)
 DepthsOf(x)   == IF Refused(x) THEN {0} ELSE Depths
 
-SatAdd(a, b) == Min2(a + b, 100000000)
+(* any enumeration of a finite set of tuples                               *)
+RECURSIVE SetToSeq2(_)
+SetToSeq2(S) == IF S = {} THEN <<>> ELSE LET e == CHOOSE e \in S : TRUE IN <<e>> \o SetToSeq2(S \ {e})
 
 Export(x) ==
   LET g  == G(x)
@@ -147,30 +163,25 @@ Export(x) ==
       must |-> {w \in x.W : w \notin Reach(A, x.refs)},
       may  |-> {w \in x.W : w \notin Reach(A, x.refs) \/ w \notin Full(x)},
       bound |-> Poly(n), vs |-> vs, ds |-> ds, fam |-> Mode,
+      pw |-> PathWork(g, x.W),
+      wc  |-> x.ck \in ClocksA,
       dev |-> {<<i, d>> \in (1..Len(vs)) \X DepthsOf(x) :
-                 Cardinality(x.W) >= 2 /\ d > 0 /\
-                 \E desc \in BOOLEAN : CodedMissesTables(Input(g, Full(x), x.refs, vs[i], d, desc))}]
+                 x.ck \in ClocksA /\ Cardinality(x.W) >= 2 /\ d > 0 /\
+                 \E desc \in Orders(vs[i]) :
+                    CodedMissesTablesWith(A, D, Input(g, Full(x), x.refs, vs[i], d, desc))}]
 
-(* any enumeration of a finite set of tuples                               *)
-RECURSIVE SetToSeq2(_)
-SetToSeq2(S) == IF S = {} THEN <<>> ELSE LET e == CHOOSE e \in S : TRUE IN <<e>> \o SetToSeq2(S \ {e})
+Blank(p) == [st |-> 0, p |-> p, ck |-> 0, refs |-> {}, W |-> {}, nf |-> 0]
 
-Blank(p) == [st |-> 0, p |-> p, ck |-> 0, refs |-> {}, W |-> {}, nf |-> 0, vs |-> {}]
-
+(* the plain ladders run under the topological clock, the crossed ones     *)
+(* with all times equal                                                    *)
 LadderStates ==
-  {[st |-> 1, p |-> Ladder(L, cross), ck |-> ck, refs |-> {2 * L + 1 + (IF cross THEN 1 ELSE 0)},
-    W |-> {}, nf |-> 0, vs |-> {}] :
-     L \in {l \in LMin..LMax : (l - LMin) % LStep = 0}, cross \in BOOLEAN, ck \in {1, 3}}
+  {[st |-> 1, p |-> Ladder(L, cross), ck |-> IF cross THEN 3 ELSE 1,
+    refs |-> {2 * L + 1 + (IF cross THEN 1 ELSE 0)}, W |-> {}, nf |-> 0] :
+     L \in {l \in LMin..LMax : (l - LMin) % LStep = 0}, cross \in BOOLEAN}
 
-LadderChoices(x) ==
-  LET n   == Len(x.p)
-      mid == n \div 2
-      U   == {{}, {mid}, {1}, {mid, Unk(n)}}
-  IN {[W |-> W, vs |-> {<<Rd(SetToSeq(W), H, d)>> : H \in U, d \in BOOLEAN}
-                     \cup {<<Rd(SetToSeq(W), {mid}, FALSE), Rd(<<>>, {1}, TRUE)>>}] :
-        W \in {{n}, {n, n - 1}, {n - 1, n - 2}}}
+LadderWants(x) == LET n == Len(x.p) IN {{n}, {n, n - 1}, {n - 1, n - 2}}
 
-Init == IF Mode = "enum" THEN s \in {Blank(p) : p \in ShapesUpTo(NC)}
+Init == IF Mode = "enum" THEN s \in {Blank(p) : p \in UNION {ShapesUpTo(k) : k \in NMin..NC}}
         ELSE s \in LadderStates
 
 Next ==
@@ -179,19 +190,21 @@ Next ==
   \/ /\ s.st = 1 /\ Mode = "enum"
      /\ \E W \in Small(1..Len(s.p), MaxW), nf \in 0..Len(s.p) :
           /\ nf = 0 \/ nf \in W        \* a missing table only matters on a want
-          /\ s' = [s EXCEPT !.st = 2, !.W = W, !.nf = nf, !.vs = Variants(Len(s.p), W)]
+          /\ s' = [s EXCEPT !.st = 2, !.W = W, !.nf = nf]
           /\ Kept(s')
           /\ PrintT(<<"SCN", ToJson(Export(s'))>>)
   \/ /\ s.st = 1 /\ Mode = "ladder"
-     /\ \E c \in LadderChoices(s) :
-          /\ s' = [s EXCEPT !.st = 2, !.W = c.W, !.vs = c.vs]
+     /\ \E W \in LadderWants(s) :
+          /\ s' = [s EXCEPT !.st = 2, !.W = W]
           /\ PrintT(<<"SCN", ToJson(Export(s'))>>)
 
 Spec == Init /\ [][Next]_vars
 
 (* use (A)                                                                 *)
 Inv ==
-  s.st = 2 =>
-    \A v \in VariantsOf(s), d \in DepthsOf(s), desc \in BOOLEAN :
-      DesignOK(Input(G(s), Full(s), s.refs, v, d, desc))
+  (s.st = 2 /\ s.ck \in ClocksA) =>
+    LET A == AncMap(G(s))
+        D == DistMap(G(s), s.W)
+    IN \A v \in VariantsOf(s), d \in DepthsOf(s) : \A desc \in Orders(v) :
+         DesignOKWith(A, D, Input(G(s), Full(s), s.refs, v, d, desc))
 =============================================================================
